@@ -35,8 +35,9 @@ package congestion
 //	shrink-on-ack|cubic-epoch-older-than-25s  Cubic, event time + minRTT − epoch start > 25 s
 //	shrink-on-ack|cubic-min-rtt-decreased     Cubic, minRTT fell since the previous CA ACK
 //	shrink-on-ack|cubic-after-mtu-rebase      Cubic, minimal window re-based during the epoch
+//	cwnd-below-2-packets|after-shrink-on-ack  the floor is violated since an ACK shrank the window
 //
-// These four classes fire on the tree as of the build of this monitor (see the build report);
+// These five classes fire on the tree as of the build of this monitor (see the build report);
 // the unlabelled signatures (cwnd-below-2-packets, shrink-on-ack, …) do not.
 
 import (
@@ -151,6 +152,7 @@ type c20Run struct {
 	panicked   bool
 	// labelling only (input class of a shrink-on-ack report): mirror of the Cubic epoch start
 	cubicEpoch   monotime.Time
+	ackShrunk    bool          // an ACK shrank the window and it has not been at two packets since (label only)
 	rebaseTaint  bool          // the minimal window was re-based by an MTU increase during the current Cubic epoch
 	minRTTAtGrow time.Duration // MinRTT at the previous congestion-avoidance ACK of the Cubic epoch
 	epochLbl     protocol.PacketNumber
@@ -205,11 +207,14 @@ func (r *c20Run) bounds(where string) {
 	if w < 2*r.mds {
 		if r.mtuPending || (r.cfg.Cubic && r.rebaseTaint) {
 			r.fail(r.sig("cwnd-below-2-packets", "after-mtu-increase"), "after %s: cwnd %d < 2 x %d (datagram size in force after SetMaxDatagramSize)", where, w, r.mds)
+		} else if r.ackShrunk {
+			r.fail(r.sig("cwnd-below-2-packets", "after-shrink-on-ack"), "after %s: cwnd %d < 2 x %d (an ACK had shrunk the window)", where, w, r.mds)
 		} else {
 			r.fail(r.sig("cwnd-below-2-packets"), "after %s: cwnd %d < 2 x %d", where, w, r.mds)
 		}
 	} else {
 		r.mtuPending = false
+		r.ackShrunk = false
 	}
 	if w > c20MaxPkts*r.mds+r.mds {
 		r.fail(r.sig("cwnd-above-max"), "after %s: cwnd %d > %d x %d + %d", where, w, c20MaxPkts, r.mds, r.mds)
@@ -303,6 +308,7 @@ func (r *c20Run) call(kind int, pn protocol.PacketNumber, prior protocol.ByteCou
 				r.fail(r.sig("shrink-without-loss", name), "OnRetransmissionTimeout(false): cwnd %d -> %d", before, after)
 			}
 		case c20Acked:
+			r.ackShrunk = true
 			if age := r.clk.now.Add(r.rtt.MinRTT()).Sub(epochBefore); r.cfg.Cubic && !epochBefore.IsZero() && age > 25*time.Second {
 				r.fail(r.sig("shrink-on-ack", "cubic-epoch-older-than-25s"), "OnPacketAcked(pn=%d, prior=%d, t+minRTT=epoch+%s): cwnd %d -> %d", pn, prior, age, before, after)
 			} else if r.cfg.Cubic && r.rebaseTaint {
